@@ -171,6 +171,10 @@ class CFG:
                     for src, label in front:
                         self._edge(src, fr.header, label or "back")
                     return
+            elif fr.kind == "inline":
+                if kind == "xvreturn":
+                    fr.breaks.extend(front)
+                    return
             elif fr.kind == "try":
                 if kind == "raise":
                     for h in fr.handlers:
@@ -219,6 +223,13 @@ class CFG:
                 self._edge(src, n, label or "back")
             out = self._block(s.orelse, [(n, "done")], frames) if s.orelse else [(n, "done")]
             return out + lf.breaks
+        if isinstance(s, ast.With) and len(s.items) == 1 and isinstance(s.items[0].context_expr, ast.Name) and s.items[0].context_expr.id == "__xv_inline__":
+            # expanded helper (engine/inline.py): not a context manager; `raise __xv_return__` inside jumps to its end
+            n = self._new("inline", s)
+            self._connect(front, n)
+            inf = _Frame("inline", node=s)
+            body = self._block(s.body, [(n, None)], frames + [inf])
+            return body + inf.breaks
         if isinstance(s, (ast.With, ast.AsyncWith)):
             n = self._new("with", s)
             self._connect(front, n)
@@ -254,6 +265,11 @@ class CFG:
             self._connect(front, n)
             self._exc(n, frames) if s.value is not None and _may_raise(s.value) else None
             self._jump([(n, None)], "return", frames)
+            return []
+        if isinstance(s, ast.Raise) and isinstance(s.exc, ast.Name) and s.exc.id == "__xv_return__":
+            n = self._new("inline_return", s)
+            self._connect(front, n)
+            self._jump([(n, None)], "xvreturn", frames)
             return []
         if isinstance(s, ast.Raise):
             n = self._new("stmt", s)
